@@ -100,6 +100,16 @@ def correspondence(ctx):
         if rng.random() < 0.4:
             a, b = 0, n
         loc = space.localized((a, b))
+        if not loc.multichoices:
+            # nothing can vary here: any number of random mutations is a no-op that draws nothing
+            nm = rng.choice([1, 1, 2, 5])
+            with Recorder() as rec:
+                try:
+                    r = loc.apply_random_mutations(nm, cs)
+                    ans = "%s used %d" % (r, len(rec.tape))
+                except Exception as e:
+                    ans = "raises:" + type(e).__name__
+            c.add("space.apply %s | %d %d | %d | %s | %s" % (head, a, b, nm, cs, " ".join(map(str, rec.tape))), ans, branch="apply:frozen")
         if loc.multichoices:
             nm = rng.choice([1, 1, 2, 2, 3, 5])
             with Recorder() as rec:
@@ -220,6 +230,16 @@ def oracle_problem(rng, seq, descs, out):
             out.append(dict(kind="all-variants", input=dict(inp, location=[a, b], current=cs), detail=str(vs[:6])))
         n_checks += 1
     # apply n mutations
+    if not loc.multichoices:
+        nm = rng.choice([1, 1, 2, 4])
+        try:
+            r = loc.apply_random_mutations(nm, cs)
+        except Exception as e:
+            r = "raised %s" % type(e).__name__
+        if r != cs:
+            out.append(dict(kind="apply-mutations", input=dict(inp, location=[a, b], current=cs, n=nm),
+                            detail="%s on a space with no multi-variant choice (min(n, 0) = 0 choices must change)" % r))
+        n_checks += 1
     if loc.multichoices:
         nm = rng.randint(1, 4)
         r = loc.apply_random_mutations(nm, cs)
